@@ -83,6 +83,53 @@ def mutants_of(rel, text):
         for a, b in ((".is_none()", ".is_some()"), (".is_some()", ".is_none()"), (".is_ok()", ".is_err()"), (".is_err()", ".is_ok()"), (".any(", ".all("), (".all(", ".any("), (".insert(", ".remove(&"), ("<=", "<"), (">=", ">")):
             for m in re.finditer(re.escape(a), code):
                 add("api-swap", l[:m.start()] + b + l[m.end():])
+    # ---- operator set 3: statement order, dropped conjuncts, multi-line statement deletion, Some -> None
+    def depth_delta(t):
+        t = re.sub(r'"(\\.|[^"\\])*"', '""', t.split("//")[0])
+        return t.count("(") + t.count("[") + t.count("{") - t.count(")") - t.count("]") - t.count("}")
+    in_test = False
+    for i, l in enumerate(lines):
+        if "#[cfg(test)]" in l:
+            break
+        s0 = l.strip()
+        if not s0 or s0.startswith("//") or s0.startswith("#[") or s0.startswith("log::"):
+            continue
+        code = l.split("//")[0]
+        ind = len(l) - len(l.lstrip())
+        # swap two adjacent single-line statements of the same indentation
+        if i + 1 < len(lines):
+            n = lines[i + 1]
+            if code.rstrip().endswith(";") and n.split("//")[0].rstrip().endswith(";") and len(n) - len(n.lstrip()) == ind \
+                    and depth_delta(code) == 0 and depth_delta(n) == 0 and not s0.startswith("let ") and not n.strip().startswith("let ") \
+                    and not s0.startswith("use ") and not n.strip().startswith("log::") and not s0.startswith("return") and not s0.startswith("pub ") and not s0.startswith("mod "):
+                out.append({"file": rel, "line": i + 1, "end": i + 2, "op": "stmt-swap", "old": l + " / " + n.strip(), "new": n + "\n" + l})
+        # drop one conjunct of a single-line `a && b`
+        parts = re.split(r"\s&&\s", code)
+        if len(parts) == 2 and depth_delta(parts[0]) == 0:
+            m = re.match(r"^(\s*(?:\} else )?if |\s*let \w+ = |\s*)(.*)$", parts[0])
+            if m and m.group(2).strip() and not m.group(2).strip().startswith("&&"):
+                tail = parts[1]
+                tm = re.match(r"^(.*?)( \{\s*|;\s*)?$", tail)
+                out.append({"file": rel, "line": i + 1, "op": "conj-drop-right", "old": l, "new": m.group(1) + m.group(2).rstrip() + (tm.group(2) or "")})
+                out.append({"file": rel, "line": i + 1, "op": "conj-drop-left", "old": l, "new": m.group(1) + tail})
+        # multi-line expression statement deletion
+        prev = lines[i - 1].split("//")[0].rstrip() if i > 0 else ""
+        if (prev.endswith(";") or prev.endswith("{") or prev.endswith("}") or prev == "") and not code.rstrip().endswith(";") \
+                and re.match(r"^\s*(self|[a-z_][\w]*)(\.|\()", l) and not re.match(r"^\s*(let|if|match|for|while|loop|return|fn|pub|use|impl|else)\b", l):
+            d = depth_delta(code)
+            j = i + 1
+            while j < len(lines) and j < i + 12:
+                cj = lines[j].split("//")[0]
+                d += depth_delta(cj)
+                if d == 0 and cj.rstrip().endswith(";"):
+                    out.append({"file": rel, "line": i + 1, "end": j + 1, "op": "mstmt-del", "old": " ".join(x.strip() for x in lines[i:j + 1])[:200], "new": ""})
+                    break
+                if d < 0:
+                    break
+                j += 1
+        for m in re.finditer(r"\bSome\(([a-z_][\w\.]*)\)", code):
+            if "=>" not in code and "if let" not in code and "while let" not in code:
+                out.append({"file": rel, "line": i + 1, "op": "some-none", "old": l, "new": l[:m.start()] + "None" + l[m.end():]})
     return out
 
 
@@ -117,7 +164,7 @@ def worker(wid, q, results, lock):
         p = os.path.join(wt, m["file"])
         orig = open(p).read()
         lines = orig.split("\n")
-        lines[m["line"] - 1] = m["new"]
+        lines[m["line"] - 1:m.get("end", m["line"])] = m["new"].split("\n") if m["new"] != "" or m.get("end", m["line"]) == m["line"] else []
         open(p, "w").write("\n".join(lines))
         rec = dict(m)
         try:
@@ -127,11 +174,16 @@ def worker(wid, q, results, lock):
                 continue
             if "warning: unused" in out or "warning: unreachable" in out or "never read" in out:
                 rec["warnings"] = True
-            rc, out = sh(["cargo", "test", "--workspace", "--no-fail-fast", "--offline"], cwd=wt, env=env, timeout=90)
+            if "--killed" in sys.argv:
+                rc, out = 1, ""
+            else:
+                rc, out = sh(["cargo", "test", "--workspace", "--no-fail-fast", "--offline"], cwd=wt, env=env, timeout=90)
             if rc != 0:
                 rec["status"] = "killed-by-tests" + (" (hang)" if rc == 124 else "")
-                continue
-            rec["status"] = "viable"
+                if "--include-killed" not in sys.argv and "--killed" not in sys.argv:
+                    continue
+            else:
+                rec["status"] = "viable"
             rec["checks"] = {}
             for pid in sorted(props.PROPS):
                 rc, out = sh([os.path.join(VERIF, "check"), pid], env=zenv, timeout=1200)
@@ -171,6 +223,9 @@ def main():
         except Exception:
             done = set()
         uniq = [m for m in uniq if (m["file"], m["line"], m["new"]) not in done]
+    if "--killed" in args:
+        prev = json.load(open(os.path.join(HERE, "sweep_results.json")))
+        uniq = [{k: r[k] for k in ("file", "line", "op", "old", "new") + (("end",) if "end" in r else ())} for r in prev if r.get("status", "").startswith("killed-by-tests")]
     if "--only" in args:
         want = set(args[args.index("--only") + 1].split(","))
         uniq = [m for m in uniq if "%s:%d" % (m["file"], m["line"]) in want or "%s:%d:%s" % (m["file"], m["line"], m["op"]) in want]
@@ -201,7 +256,9 @@ def main():
     for t in ths:
         t.join()
     outp = os.path.join(HERE, "sweep_results.json" if "--only" not in args else "sweep_partial.json")
-    if "--new" in args and "--only" not in args:
+    if "--killed" in args:
+        outp = os.path.join(HERE, "sweep_killed.json")
+    if "--new" in args and "--only" not in args and "--killed" not in args:
         try:
             results = json.load(open(outp)) + results
         except Exception:
